@@ -1294,8 +1294,65 @@ def run_all(ctx, bt, mult=1.0, tag=""):
     ctx.sample({"example-call-case": gen_prog_case(rng)})
 
 
+def dynamic_attach_cases(ctx, bt, n):
+    """a sub-strategy booked by the parent's OWN stack while it runs (`Strategy(name, algos, parent=target)`, `setup_from_parent()`):
+    `run` = own stack first, then every child once - the child that the stack just attached included, on that very run"""
+    for _ in range(n):
+        T = ctx.rng.randint(4, 9)
+        dates = pd.date_range("2021-02-01", periods=T)
+        data = pd.DataFrame({"a": [10.0 + i for i in range(T)], "b": [20.0 - i for i in range(T)]}, index=dates)
+        k = ctx.rng.randint(0, T - 2)
+        n_static = ctx.rng.randint(0, 2)
+        calls = []
+
+        class Rec(bt.Algo):
+            def __call__(self, target):
+                if target.root.name == "top":        # (not the runs of a shadow copy, which is a tree of its own)
+                    calls.append((target.root.now, target.name))
+                return True
+
+        class Attach(bt.Algo):
+            def __init__(self):
+                super(Attach, self).__init__()
+                self.done = False
+
+            def __call__(self, target):
+                calls.append((target.now, target.name))
+                if not self.done and target.now >= dates[k]:
+                    self.done = True
+                    kid = bt.Strategy("dyn", [Rec()], children=["a"], parent=target)
+                    kid.setup_from_parent()
+                    kid.update(target.now)
+                return True
+        kids = [bt.Strategy("st%d" % j, [Rec()], children=["b"]) for j in range(n_static)]
+        top = bt.Strategy("top", [Attach()], children=kids + ["a"])
+        ctx.evaluations += 1
+        ctx.count("run:dynamic-attach-cases")
+        try:
+            top.setup(data)
+            top.adjust(1000.0)
+            for d in dates:
+                top.update(d)
+                top.run()
+                top.update(d)
+        except Exception as e:  # noqa
+            ctx.count("run:dynamic-attach-raised:" + exc_kind(e))
+            continue
+        want = []
+        for i, d in enumerate(dates):
+            want.append((d, "top"))
+            want += [(d, "st%d" % j) for j in range(n_static)]
+            if i >= k:
+                want.append((d, "dyn"))
+        if calls != want:
+            first = next((x for x in zip(calls + [None] * len(want), want + [None] * len(calls)) if x[0] != x[1]), None)
+            ctx.violation("C13/run:child-attached-by-the-stack-not-run-once", "attach on %s under top (+%d declared sub-strategies): run order differs, first difference (real, expected) %r"
+                          % (dates[k].date(), n_static, first), {"case": {"dynamic_attach": [T, k, n_static]}})
+
+
 def run(ctx, bt):
     run_all(ctx, bt)
+    dynamic_attach_cases(ctx, bt, ctx.scale(40, 500))
 
 
 def search(ctx, bt):
@@ -1304,6 +1361,9 @@ def search(ctx, bt):
 
 def replay(bt, data, ctx):
     case = data["case"]
+    if "dynamic_attach" in case:
+        dynamic_attach_cases(ctx, bt, 200)      # regenerated from the seed of the run
+        return
     if case["kind"] == "call":
         a, b = run_call_cases(ctx, bt, [case], "stack:call")
     elif case["kind"] == "run":
